@@ -289,7 +289,7 @@ def compute_landmarks(x, gp_type=None, n_landmarks=DEFAULT_N_LANDMARKS):
 
 
 def compute_landmarks_rescale_time(
-    x, ls, ls_time, times=None, n_landmarks=DEFAULT_N_LANDMARKS
+    x, ls, ls_time, times=None, n_landmarks=DEFAULT_N_LANDMARKS, gp_type=None
 ):
     R"""
     Computes landmark points for time-rescaled input data using k-means centroids.
@@ -315,6 +315,9 @@ def compute_landmarks_rescale_time(
         Shape must be either (n_samples,) or (n_samples, 1).
     n_landmarks : int, optional
         The desired number of landmark points. Defaults to DEFAULT_N_LANDMARKS.
+    gp_type : GaussianProcessType, optional
+        The type of the Gaussian Process. If gp_type is 'fixed' then x
+        is passed through as landmarks if n_landmakrs>=n_samples. Defaults to None.
 
     Returns
     -------
@@ -333,7 +336,7 @@ def compute_landmarks_rescale_time(
     x = validate_time_x(x, times)
     time_factor = ls / ls_time
     x = x.at[:, -1].set(x[:, -1] * time_factor)
-    landmarks = compute_landmarks(x, n_landmarks=n_landmarks)
+    landmarks = compute_landmarks(x, gp_type=gp_type, n_landmarks=n_landmarks)
     if landmarks is not None:
         try:
             landmarks = landmarks.at[:, -1].set(landmarks[:, -1] / time_factor)
